@@ -1,0 +1,8 @@
+//go:build verif && amd64 && !purego
+
+package bn256
+
+// VerifDispatch reports the implementation tier selected for this process.
+func VerifDispatch() map[string]bool {
+	return map[string]bool{"supportADX": supportADX, "supportAVX2": supportAVX2}
+}
